@@ -21,6 +21,7 @@ enum ArrClass {
     ARR_WIDTH_EDGE,     // base + {0, 1, 2^(8w)-2, 2^(8w)-1, 2^(8w)}: ranges that exactly fill w bytes
     ARR_POOL,           // drawn from a pool whose size sits near a decision threshold
     ARR_LONGRUNS,       // one to six runs of equal values filling the whole array (bulk fill / copy paths)
+    ARR_BIGSTEP,        // non-decreasing small steps with one to three giant steps (2^31, 2^32, 2^63, ...)
     ARR_NCLASSES
 };
 
@@ -188,6 +189,21 @@ inline std::vector<uint64_t> gen_array(Rng &r, size_t n, int cls) {
             size_t run = j + 1 == k ? n - i : r.range(1, std::max<size_t>(1, (n - i)));
             uint64_t val = r.chance(1, 3) ? 0 : (r.chance(1, 2) ? r.below(1000) : magnitude(r));
             for (size_t q = 0; q < run && i < n; q++, i++) v[i] = val;
+        }
+        break;
+    }
+    case ARR_BIGSTEP: {
+        uint64_t cur = r.chance(1, 2) ? 0 : r.below(1000);
+        size_t nj = r.range(1, 3);
+        std::vector<size_t> at;
+        for (size_t j = 0; j < nj; j++) at.push_back(r.below(std::max<size_t>(n, 1)));
+        static const unsigned exps[] = {63, 63, 62, 32, 31, 33, 48, 56, 16};
+        for (size_t i = 0; i < n; i++) {
+            uint64_t step = r.chance(1, 3) ? 0 : r.below(r.chance(1, 2) ? 4 : 300);
+            for (size_t a : at)
+                if (a == i && i > 0) step = (1ULL << r.pick(exps)) + (r.chance(1, 2) ? 0 : r.below(1000));
+            cur = cur + step < cur ? ~0ULL : cur + step; // saturate
+            v[i] = cur;
         }
         break;
     }
